@@ -139,7 +139,7 @@ pub fn run(c: &[S]) -> Option<S> {
         "par" => {
             let threads = d_usize(&a[0]);
             let nv = d_u16(&a[1]);
-            let pool: Vec<Bdd> = d_items(&a[2], "L").iter().map(d_bdd).collect();
+            let pool: Vec<Bdd> = d_items(&a[2], "L").iter().map(d_bdd_fresh).collect();
             let before: Vec<Vec<u8>> = pool.iter().map(|b| b.to_bytes()).collect();
             let before_raw: Vec<S> = pool.iter().map(e_bdd).collect();
             let ops: Vec<S> = d_items(&a[3], "L").to_vec();
